@@ -184,7 +184,11 @@ def project(df):
 def call_real(case):
     """Render the case, run read_pepxml on it, return the trace dict (without tid)."""
     import mokapot
-    tmp = tempfile.mkdtemp(prefix="c20_")
+    # one directory per worker process, the same file names for every case it handles (a result must not depend on what a
+    # path held before)
+    tmp = os.path.join(tempfile.gettempdir(), "c20_p%d" % os.getpid())
+    shutil.rmtree(tmp, ignore_errors=True)
+    os.makedirs(tmp)
     tr = {"prefix": case["prefix"], "files": case["files"], "kind": "Raised", "raised": "", "rows": []}
     try:
         paths = []
